@@ -220,20 +220,20 @@ def op_line(op: dict) -> str:
             ["op reagent_distribution", e_str(op["src_label"]), e_intarg(op["src_start"]), e_intarg(op["src_end"]),
              e_str(op["dst_label"]), e_intarg(op["dst_start"]), e_intarg(op["dst_end"]), e_pynum(op["vol"]),
              str(op.get("diti_reuse", 1)), str(op.get("multi_disp", 1)),
-             ",".join(str(x) for x in op.get("exclude", [])), e_str(op.get("liquid_class", "")),
+             (",".join(str(x) for x in op.get("exclude", [])) or "_"), e_str(op.get("liquid_class", "")),
              e_str(op.get("direction", "left_to_right")), e_str(op.get("src_rack_id", "")),
              e_str(op.get("src_rack_type", "")), e_str(op.get("dst_rack_id", "")), e_str(op.get("dst_rack_type", ""))]
         )
     if k in ("evo_aspirate", "evo_dispense"):
         toks = [f"op {k}", str(op["lab"]), A(op["wells"]), e_intarg(op["grid"]), e_intarg(op["site"]),
-                ",".join(e_tipsym(t) for t in op["tips"]), e_evovol(op["vol"]), e_str(op["liquid_class"]),
+                (",".join(e_tipsym(t) for t in op["tips"]) or "_"), e_evovol(op["vol"]), e_str(op["liquid_class"]),
                 str(op.get("arm", 0)), e_opt(e_str, op.get("label"))]
         if k == "evo_dispense":
             toks.append(e_comps(op.get("comps")))
         return " ".join(toks)
     if k == "evo_wash":
         return " ".join(
-            ["op evo_wash", ",".join(e_tipsym(t) for t in op["tips"]), e_intarg(op["waste_grid"]), e_intarg(op["waste_site"]),
+            ["op evo_wash", (",".join(e_tipsym(t) for t in op["tips"]) or "_"), e_intarg(op["waste_grid"]), e_intarg(op["waste_site"]),
              e_intarg(op["cleaner_grid"]), e_intarg(op["cleaner_site"]), str(op.get("arm", 0)),
              e_opt(e_pynum, op["waste_vol"]), e_intarg(op["waste_delay"]), e_opt(e_pynum, op["cleaner_vol"]),
              e_intarg(op["cleaner_delay"]), e_intarg(op["airgap"]), e_intarg(op["airgap_speed"]),
